@@ -137,7 +137,8 @@ func init() {
 			if err != nil {
 				panic(err)
 			}
-			blk, err := ledger.NewBlockFromCbor(f.blockType, data)
+			// body-hash validation is C34/C35's business: keep this dump independent of it
+			blk, err := ledger.NewBlockFromCbor(f.blockType, data, common.VerifyConfig{SkipBodyHashValidation: true})
 			if err != nil {
 				panic(fmt.Sprintf("fixture %s does not decode as type %d: %v", f.name, f.blockType, err))
 			}
